@@ -42,7 +42,12 @@ META = {'design_ref': 'DESIGN.md section 7 / C01',
                'C01_ids_inv_* (ids strictly increasing, never reused), C01_reset / C01_reset_any (after reset every container is empty and every user '
                'operation has exactly one error completion), and for every state: C01_own_ack_kind, C01_suback_own, C01_unsuback_own, C01_puback_own, '
                'C01_pubrec_own, C01_pubcomp_own, C01_flush_value (a completion carries the acknowledgement type of its operation kind, for the packet id it is '
-               'pending under, with one code per entry). "Never silently dropped" is the tracking invariant of the WF development (C11) plus the monitors '
-               'mon_unique_completion / mon_own_ack / mon_reset_clears on the implementation trace.',
+               'pending under, with one code per entry). "Never silently dropped" is now a theorem over all histories: C01_no_silent_drop (abstract '
+               'components) and C01_instance_no_silent_drop (the concrete executed model): in every reachable state every incomplete operation is in a queue, '
+               'is the current operation, awaits its write completion, or is a value of a pending-ack table (WF invariant + tracking invariant TR of '
+               'EngineProofs/WFTrack.v), PROVIDED every submitted packet passed the submission-time validation the clients perform (only "a submitted PUBLISH '
+               'has DUP = 0" is used); Example C01_drop_needs_valid_submission shows the proviso is necessary (a DUP publish with a colliding packet id, which '
+               'validate_packet_outbound rejects, would be lost by the engine). On the implementation the same statements are judged by the monitors '
+               'mon_unique_completion / mon_own_ack / mon_reset_clears / mon_tracked on every generated history.',
  'technique': 'machine-checked proof in Coq over the engine model + lock-step correspondence of the extracted model with the implementation + extracted '
               'monitors on the implementation trace'}
